@@ -46,6 +46,11 @@ worktrees removed).  exit 1 = caught.
                                 (re-check `entry.ExpireAt <= now` dropped)                                 evicts the newer result: retry applied instead of suppressed)
   (seed C24-2, see C24)
  C21
+  seed C21-3 (add(): `sortedKeysDirty = !keyExisted || score changed` as an assignment clears a dirty flag an earlier write owed)   exit 1
+                                (pages:stale-sorted-view: per table state, after a read built the sorted view: rescore a / remove + add, then re-publish
+                                another key unchanged, then walks in both directions against the table's order of the new state; panics are caught)
+  seed C21-4 (getState holds channel.mu only around the rebuild of sortedKeys)                                     exit 1 (pages:concurrent-opposite-readers:
+                                mode `readers`, 4000 keys with score ties, 2 ascending + 2 descending walkers, page sizes -1/1000/250, 3 s)
   seed C21-2 (upgrade branch of add() dropped: a channel object created by ReadState/ReadStream stays unordered)   exit 1 (pages table: every state is also built
                                 after a read-before-first-publish / Clear+read / remove-all+read; replay: snapshot of channel.ordered against the model's chOrd)
   tie_cursor                    ordered cursor search uses >= / <= on equal scores                         exit 1 (duplicate key, no progress)
@@ -245,6 +250,9 @@ def c21(c):
     binp = c.go_build('mapbroker')
     res = c.harness(binp, 'pages', states, timeout=600)
     _take(c, res, 'pages')
+    # reads are atomic w.r.t. each other (blocking assumption of the spec): concurrent walks in both directions, no writer
+    rd = c.harness(binp, 'readers', {'keys': 4000, 'seconds': 3 if quick else 10}, timeout=300)
+    _take(c, rd, 'readers')
     _exhaustive(c, ['quick-checks.cfg'] if quick else ['thorough-checks.cfg'])
     _replay(c, binp, 100 if quick else 1000)
     c.cov['rule'] = ('table: every key set over {a,b,c,d} x every score assignment (quick: scores {min int64, 0, max int64}, thorough: {min, -1, 0, 1, max}; '
